@@ -27,6 +27,8 @@ var c10Alphabet = []argTok{
 	{"(", "(", 1}, {")", ")", 2}, {",", ",", 3},
 	{"K", "5", 0}, {"K2", "1 + 2", 0},
 	{`"hi"`, "S_Text_0", 4}, {"moves(u d)", "S_Movement_0", 4},
+	// the same text written in two parts with a run of comment lines between them (one literal, one label)
+	{"\"h\" // c1\n\t\t# c2\n\t\t// c3\n\t\t\"i\"", "S_Text_0", 4},
 }
 
 var c10Names = []string{"foo", "é_cmd", "iff", "endx", "msgbox", "END", "Return", "RETURN", "End", "Goto", "CALL"} // incl. case variants of the names the compiler itself treats specially
@@ -45,6 +47,19 @@ var c10Cmd = func() parser.CommandConfig {
 const c10Contexts = 12
 
 func c10Valid(seq []argTok) bool {
+	plainText, partText := false, false
+	for _, t := range seq {
+		if t.kind == 4 && t.out == "S_Text_0" {
+			if strings.Contains(t.src, "//") {
+				partText = true
+			} else {
+				plainText = true
+			}
+		}
+	}
+	if plainText && partText {
+		return false // two different texts in one command: their numbering is C06's business
+	}
 	depth := 0
 	argLen := 0
 	argHasDatum := false
@@ -145,12 +160,16 @@ func runC10(tier string) int {
 			seq := make([]argTok, L)
 			x := idx
 			hasText, hasMoves, hasParen, nargs := false, false, false, 1
+			textBlock := "S_Text_X:\n\t.string \"hi$\"" // X = the label number expected in the context
 			for i := range seq {
 				seq[i] = c10Alphabet[x%nA]
 				x /= nA
 				switch {
-				case seq[i].src == `"hi"`:
+				case seq[i].kind == 4 && seq[i].out == "S_Text_0":
 					hasText = true
+					if strings.Contains(seq[i].src, "//") {
+						textBlock = "S_Text_X:\n\t.string \"h\"\n\t.string \"i$\""
+					}
 				case seq[i].kind == 4:
 					hasMoves = true
 				case seq[i].kind == 1:
@@ -245,7 +264,8 @@ func runC10(tier string) int {
 						wantAll = append(wantAll, "", "S_Movement_0:", "\tu", "\td", "\tstep_end")
 					}
 					if hasText && ctx < 4 {
-						wantAll = append(wantAll, "", "S_Text_0:", "\t.string \"hi$\"")
+						wantAll = append(wantAll, "")
+						wantAll = append(wantAll, strings.Split(strings.Replace(textBlock, "_X", "_0", 1), "\n")...)
 					}
 					if ctx == 10 {
 						for _, blk := range []string{"S_Movement_0:\n\tud\n\tstep_end", "S_Text_0:\n\t.braille \"hi$\""} {
@@ -253,15 +273,15 @@ func runC10(tier string) int {
 								wantAll = append(wantAll, "<missing: "+blk+">")
 							}
 						}
-						if hasText && !strings.Contains(res.Out, "S_Text_1:\n\t.string \"hi$\"") {
-							wantAll = append(wantAll, "<missing: S_Text_1 with .string \"hi$\">")
+						if blk := strings.Replace(textBlock, "_X", "_1", 1); hasText && !strings.Contains(res.Out, blk) {
+							wantAll = append(wantAll, "<missing: "+blk+">")
 						}
 						if hasMoves && !strings.Contains(res.Out, "S_Movement_1:\n\tu\n\td\n\tstep_end") {
 							wantAll = append(wantAll, "<missing: S_Movement_1 with u d step_end>")
 						}
 					} else if ctx >= 4 {
-						if hasText && !strings.Contains(res.Out, "S_Text_0:\n\t.string \"hi$\"") {
-							wantAll = append(wantAll, "<missing: S_Text_0 with .string \"hi$\">")
+						if blk := strings.Replace(textBlock, "_X", "_0", 1); hasText && !strings.Contains(res.Out, blk) {
+							wantAll = append(wantAll, "<missing: "+blk+">")
 						}
 						if hasMoves && !strings.Contains(res.Out, "S_Movement_0:\n\tu\n\td\n\tstep_end") {
 							wantAll = append(wantAll, "<missing: S_Movement_0 with u d step_end>")
@@ -390,5 +410,5 @@ func runC10(tier string) int {
 	r.Assume("expected line = name, then the source tokens joined by single spaces with no space before a comma; constants replaced by their value; an inline text / moves() that is a whole argument replaced by its label",
 		"no empty arguments, inline data only as whole arguments, parentheses balanced to depth 2 (the property's domain)")
 	return r.Finish(r.Get("evaluations"), r.Get("nontrivial"),
-		"every argument token sequence of length <= L over a 24-token alphabet (identifiers incl. multi-byte, keywords, decimal/negative/hex numbers, operators, an illegal character, parentheses, comma, two constants, inline text, moves()) that is in the domain, with 11 command names incl. case variants of end / return / goto / call (all names for <= 1 token, rotating beyond), in 12 contexts (as an AutoVar command in the middle of a condition, after a command whose inline data are spelled like this command's data joined / typed, alone, middle of a stretch, twice in a row, all on one line, inside an if body, inside a poryswitch case selected through _ / directly, last command of an if body / loop body / switch case); plus every identifier-like literal of the compiler's own source as command name and as argument in 3 contexts; plus commands with K arguments and stretches of K commands for every K up to the bound in the coverage; the whole emitted file is compared byte for byte with the generator's expectation; non-trivial = >= 2 arguments and nested parentheses")
+		"every argument token sequence of length <= L over a 25-token alphabet (a two-part text with a run of comment lines between the parts, identifiers incl. multi-byte, keywords, decimal/negative/hex numbers, operators, an illegal character, parentheses, comma, two constants, inline text, moves()) that is in the domain, with 11 command names incl. case variants of end / return / goto / call (all names for <= 1 token, rotating beyond), in 12 contexts (as an AutoVar command in the middle of a condition, after a command whose inline data are spelled like this command's data joined / typed, alone, middle of a stretch, twice in a row, all on one line, inside an if body, inside a poryswitch case selected through _ / directly, last command of an if body / loop body / switch case); plus every identifier-like literal of the compiler's own source as command name and as argument in 3 contexts; plus commands with K arguments and stretches of K commands for every K up to the bound in the coverage; the whole emitted file is compared byte for byte with the generator's expectation; non-trivial = >= 2 arguments and nested parentheses")
 }
